@@ -464,12 +464,96 @@ func flipParity(V *big.Int) *big.Int {
 	return new(big.Int).Sub(V, big.NewInt(1))
 }
 
+// arith returns a value different from x that an implementation working in
+// fixed-width arithmetic may confuse with x: x + k*2^w, x with its low 64 (or
+// low 8) bits kept and higher bits set, i.e. the same Uint64(), byte() or int
+// conversion.  Never negative.
+var arithWidths = []uint{8, 16, 32, 63, 64, 65, 66, 128, 256}
+
+func arith(r *vf.Rng, x *big.Int) (*big.Int, string) {
+	for {
+		var y *big.Int
+		var how string
+		switch r.Intn(5) {
+		case 0, 1:
+			w := arithWidths[r.Intn(len(arithWidths))]
+			k := []int64{1, 2, -1, 3}[r.Intn(4)]
+			y = new(big.Int).Add(x, new(big.Int).Mul(big.NewInt(k), new(big.Int).Lsh(big.NewInt(1), w)))
+			how = fmt.Sprintf("%+d*2^%d", k, w)
+		case 2:
+			hi := new(big.Int).SetBytes(r.Bytes(1 + r.Intn(24)))
+			y = new(big.Int).Add(x, new(big.Int).Lsh(hi, 64)) // same low 64 bits
+			how = "higher bits above 64"
+		case 3:
+			hi := new(big.Int).SetBytes(r.Bytes(1 + r.Intn(9)))
+			y = new(big.Int).Add(x, new(big.Int).Lsh(hi, 8)) // same low byte
+			how = "higher bits above 8"
+		default:
+			w := []uint{64, 65, 128}[r.Intn(3)]
+			hi := new(big.Int).Lsh(big.NewInt(int64(1+r.Intn(1000))), w)
+			y = new(big.Int).Add(x, hi)
+			how = fmt.Sprintf("multiple of 2^%d", w)
+		}
+		if y.Sign() >= 0 && y.Cmp(x) != 0 {
+			return y, how
+		}
+	}
+}
+
+// the same inside 64 bits (nonce, gas limit, network id of the signer)
+func arithU64(r *vf.Rng, x uint64) (uint64, string) {
+	for {
+		w := []uint{8, 16, 32, 63, 31, 1}[r.Intn(6)]
+		k := []uint64{1, 2, ^uint64(0), 3}[r.Intn(4)]
+		y := x + k<<w
+		if y != x {
+			return y, fmt.Sprintf("%+d*2^%d mod 2^64", int64(k), w)
+		}
+	}
+}
+
 func genSender(r *vf.Rng) SenderCase {
 	key := r.Intn(nKeys)
 	net := randNet(r)
 	base := signSpec(randUnsigned(r), net, key)
 	c := SenderCase{Kind: "sender", Net: net, Tx: base, Key: key}
-	switch k := r.Intn(20); {
+	switch k := r.Intn(27); {
+	case k >= 20:
+		// arithmetic families on one field, signature kept
+		t := base
+		var how string
+		var y *big.Int
+		switch f := r.Intn(11); {
+		case f < 4: // V most often: it is not covered by the signing hash
+			y, how = arith(r, num(t.V))
+			t.V, c.Class = y.String(), "V was changed ("+how+")"
+			if r.Chance(25) && y.Cmp(big.NewInt(35)) >= 0 {
+				// and the signer runs on the low 64 bits of the network id this V names
+				c.Net = new(big.Int).Rsh(new(big.Int).Sub(y, big.NewInt(35)), 1).Uint64()
+			}
+		case f == 4:
+			y, how = arith(r, num(t.R))
+			t.R, c.Class = y.String(), "r was changed ("+how+")"
+		case f == 5:
+			y, how = arith(r, num(t.S))
+			t.S, c.Class = y.String(), "s was changed ("+how+")"
+		case f == 6:
+			y, how = arith(r, num(t.Price))
+			t.Price, c.Class = y.String(), "the gas price was changed ("+how+")"
+		case f == 7:
+			y, how = arith(r, num(t.Value))
+			t.Value, c.Class = y.String(), "the value was changed ("+how+")"
+		case f == 8:
+			t.Nonce, how = arithU64(r, t.Nonce)
+			c.Class = "the nonce was changed (" + how + ")"
+		case f == 9:
+			t.Gas, how = arithU64(r, t.Gas)
+			c.Class = "the gas limit was changed (" + how + ")"
+		default:
+			c.Net, how = arithU64(r, net)
+			c.Class = "the signer has another network id (" + how + ")"
+		}
+		c.Tx = t
 	case k < 3:
 		c.Class, c.SameAs = "signed", true
 	case k < 5:
@@ -687,8 +771,9 @@ var stkCanSucceed = map[string]bool{"create": true, "create_role": true, "deposi
 var stkDetains = map[string]bool{"create": true, "create_role": true, "deposit": true, "deleg_add": true}
 
 type MsgSpec struct {
-	Key    int      `json:"key"`     // signing key
-	BadSig bool     `json:"bad_sig"` // signature made unusable (s := 0)
+	Key    int      `json:"key"`             // signing key
+	BadSig bool     `json:"bad_sig"`         // signature made unusable (s := 0)
+	VAdd   string   `json:"v_add,omitempty"` // added to V after signing: a transaction nobody signed
 	Nonce  uint64   `json:"nonce"`
 	Price  string   `json:"price"`
 	Gas    uint64   `json:"gas"`
@@ -820,6 +905,9 @@ func (m MsgSpec) tx(net uint64) *types.Transaction {
 	sp = signSpec(sp, net, m.Key)
 	if m.BadSig {
 		sp.S = "0"
+	}
+	if m.VAdd != "" {
+		sp.V = new(big.Int).Add(num(sp.V), num(m.VAdd)).String()
 	}
 	return sp.build()
 }
@@ -1068,7 +1156,7 @@ func observeApply(c *ApplyCase) {
 			costPre := new(big.Int).Mul(new(big.Int).SetUint64(m.Gas), price)
 			switch so.Code {
 			case 1:
-				if !m.BadSig {
+				if !m.BadSig && m.VAdd == "" {
 					flag(i, "a correctly signed transaction was refused as unsigned")
 				}
 			case 2:
@@ -1091,6 +1179,9 @@ func observeApply(c *ApplyCase) {
 		case so.Code == 0:
 			if m.BadSig {
 				flag(i, "a transaction with an invalid signature was applied")
+			}
+			if m.VAdd != "" {
+				flag(i, "a transaction nobody signed (V rewritten after signing) was applied")
 			}
 			if applied[tx.Hash()] {
 				flag(i, "the same transaction was applied twice")
@@ -1254,7 +1345,7 @@ func (c ApplyCase) coq() string {
 		if so.HOk {
 			res = "(Some " + cq(so.Detain) + ")"
 		}
-		msg := fmt.Sprintf("(mkMsg %s %s %d %s %d %s %s %s %s (mkSO %s %s %s))", cqA(keyAddr[m.Key]), vf.Bool(!m.BadSig), m.Nonce, cq(m.Price), m.Gas, to, cq(m.Value), vf.ByteList(d), cq(so.NewAddr),
+		msg := fmt.Sprintf("(mkMsg %s %s %d %s %d %s %s %s %s (mkSO %s %s %s))", cqA(keyAddr[m.Key]), vf.Bool(!m.BadSig && m.VAdd == ""), m.Nonce, cq(m.Price), m.Gas, to, cq(m.Value), vf.ByteList(d), cq(so.NewAddr),
 			vf.Bool(so.Decodes), vf.Bool(so.Create), res)
 		steps = append(steps, fmt.Sprintf("mkStep %s %d %d %s %s %d", msg, so.Code, so.GasUsed, vf.Bool(so.Failed), obsList(so.Obs), so.Pool))
 	}
@@ -1417,6 +1508,10 @@ func genApply(r *vf.Rng) ApplyCase {
 			m.Nonce += uint64(1 + r.Intn(3))
 		}
 		m.BadSig = r.Chance(3)
+		if r.Chance(4) {
+			y, _ := arith(r, new(big.Int))
+			m.VAdd = y.String()
+		}
 		// destination
 		var to *common.Address
 		kindOfTo := 0
@@ -1697,7 +1792,7 @@ func gen(seed uint64, n int, outDir, corpusDir string) {
 		case *SenderCase:
 			observeSender(x)
 			line, what = x.coq(), x.What
-			res.Count("sender:" + x.Class)
+			res.Count("sender:" + strings.SplitN(x.Class, " (", 2)[0])
 			res.Count(fmt.Sprintf("sender_result:%s", []string{"address", "not_protected", "invalid_network_id", "invalid_sig", "recover_failed"}[x.Code]))
 		case *SignCase:
 			observeSign(x)
